@@ -7,6 +7,9 @@ address on the simulated wire and reconciles each recovery:metrics_updated repor
 path the report names."""
 import e2e
 import e2e_props
+from vlib import step_extract, step_lean
+
+BRIDGES = ["QuicProofs.Bridge.RecoveryPaths"]
 
 
 def nontrivial(tr, s):
@@ -18,6 +21,10 @@ def run(ctx):
     ctx.assumptions.append("o_c09 per path: a packet's path is the path whose peer address the datagram was sent to (FIFO correlation of packet_sent events and "
                            "wire lines; reports with an outstanding packet that cannot be attributed are skipped); a path's bytes_in_flight is only "
                            "reported while that path is the current one")
+    # tie G: the statements of recovery/manager.rs that credit a resolved packet to the controller of ITS path with ITS size
+    step_extract(ctx, ["recovery_paths"])
+    if not step_lean(ctx, [], BRIDGES, extra_targets=()):
+        ctx.escalated = True
     traces = e2e_props.run_family(ctx, "migration", [e2e.o_c09], 24, 600, nontrivial=nontrivial,
                                   name="T:migration: o_c09 (per-path bytes in flight, loss justification with the sending path's RTT) holds while the client's address "
                                        "changes during a bulk transfer")
